@@ -862,7 +862,15 @@ def axis_maps_user_to_normalized(tier, rnd):
                 for _ in nodes:
                     dvals.append(cur)
                     cur += rnd.choice([8, 16, 64, 200, 1000])
-                axes.append((name, tag, (lo, de, hi), list(zip(nodes, dvals))))
+                pairs = list(zip(nodes, dvals))
+                if i % 4 == 3 and hi > de:
+                    # an intermediate node that lies exactly ON the diagonal of the normalized map, next to one that
+                    # does not: it is a real knot of the curve although it 'maps to itself'
+                    dd, dh = dict(pairs)[de], dict(pairs)[hi]
+                    pairs = [(u, d) for u, d in pairs if not de < u < hi]
+                    pairs += [(de + (hi - de) / 2, dd + (dh - dd) / 2), (de + (hi - de) * 3 / 4, dd + (dh - dd) * 7 / 8)]
+                    pairs.sort()
+                axes.append((name, tag, (lo, de, hi), pairs))
             fam.axes = axes
         try:
             data, vf, mdatas, gidmaps = build_vf(fam, optimize=True)
